@@ -8,6 +8,7 @@ check next to the native spec.
 """
 import collections
 import importlib
+import json
 import sys
 
 from pvf.bounded import common
@@ -243,6 +244,46 @@ class _Timeout(Exception):
     pass
 
 
+# family config: the counter-model says which settings are explicit (not the sentinel); the real entry points are run on
+# that combination (concrete values from the bounded stand-in's domain) and compared as the postcondition demands
+_CONFIG_CHECKS = {
+    '_merge_defaults': ['explicit-over-defaults'], 'pformat': ['explicit-over-defaults', 'positional-args'],
+    'pprint': ['pprint-is-pformat-plus-end', 'positional-args'], 'cpprint': ['cpprint-stripped'],
+    'set_default_config': ['get-default-config'], 'get_default_config': ['get-default-config'],
+    'pretty_repr': ['pretty-repr'], 'PrettyPrinter.__init__': ['PrettyPrinter-pformat', 'PrettyPrinter-pprint'],
+    'PrettyPrinter.pformat': ['PrettyPrinter-pformat'], 'PrettyPrinter.pprint': ['PrettyPrinter-pprint'],
+    '__init__': ['PrettyPrinter-pformat', 'PrettyPrinter-pprint'],
+}
+
+
+def replay_config(fn, model):
+    from pvf.bounded import c18
+    import warnings
+    warnings.simplefilter('ignore')
+    unset = (model.get('@consts') or {}).get('_UNSET_SENTINEL')
+    keys = ['indent', 'width', 'depth', 'ribbon_width', 'max_seq_len', 'sort_dict_keys']
+    explicit = {k: c18.EXPLICIT_DOMAIN[k] for k in keys if k in model and model[k] != unset}
+    if fn in ('set_default_config',):
+        args = {k: {'width': 30, 'ribbon_width': 15, 'depth': 2, 'max_seq_len': 3, 'sort_dict_keys': True}[k]
+                for k in ('width', 'ribbon_width', 'depth', 'max_seq_len', 'sort_dict_keys') if k in model and model[k] != unset}
+        histories = [[args], [{'width': 25, 'ribbon_width': 12}, args]]
+        explicits = [{}]
+    else:
+        histories = [[], [{'width': 30}, {'depth': 2, 'max_seq_len': 3}], [{'sort_dict_keys': True, 'ribbon_width': 15}]]
+        explicits = [explicit] if fn not in ('pretty_repr',) else [{}]
+    checks = _CONFIG_CHECKS.get(fn) or _CONFIG_CHECKS.get(fn.split('.')[-1]) or []
+    for h in histories:
+        for chk in checks:
+            vs = c18.check_history(h, explicits, [0, 1, 2], only=chk)
+            if vs:
+                v = vs[0]
+                return dict(confirmed=True, input=json.dumps(v['case'], default=str)[:400], observed=v['observed'], required=v['expected'],
+                            detail='%s: %s on the real entry points (explicit settings of the counter-model: %s; history %r): observed %s, '
+                                   'expected %s' % (fn, v['kind'], sorted(explicit) or 'none', h, v['observed'], v['expected']))
+    return dict(confirmed=False, detail='the real entry points agree on the combination of the counter-model (explicit: %s)'
+                                        % (sorted(explicit) or 'none'))
+
+
 def replay(r, budget_s=10):
     """replay under a wall-clock budget: a counter-model may describe a contextual function that keeps returning
     contextual documents (outside the assumption the proofs make), on which the real code does not terminate"""
@@ -270,4 +311,7 @@ def _replay(r):
         return dict(confirmed=False, detail='the solver gave no model')
     if fn in ('fast_fitting_predicate', 'smart_fitting_predicate'):
         return replay_predicate(fn, model)
+    if r.get('family') == 'config':
+        full = r.get('function') or ''
+        return replay_config(full if full in _CONFIG_CHECKS else fn, model)
     return dict(confirmed=False, detail='no direct replay for %s: the failing input is searched by the bounded stand-in' % fn)
